@@ -608,6 +608,26 @@ func genC11Curve(g *gen, name string, c kzgCurve) {
 	}
 
 	// --- batch at several points
+	// the model's λ (on the line): pairwise distinct, ∉ {0,1}; slot 0 is 1 (both sides force λ₀ = 1)
+	distinctLams := func(n int) []*big.Int {
+		l := make([]*big.Int, 0, n)
+	draw:
+		for len(l) < n {
+			x := rnd()
+			if len(l) == 0 {
+				x = big.NewInt(1)
+			} else if x.Sign() == 0 {
+				continue
+			}
+			for _, y := range l {
+				if x.Cmp(y) == 0 {
+					continue draw
+				}
+			}
+			l = append(l, x)
+		}
+		return l
+	}
 	for it := 0; it < g.budget(21, 150); it++ {
 		tt, tau := tauTok()
 		n := it % 7
@@ -623,13 +643,14 @@ func genC11Curve(g *gen, name string, c kzgCurve) {
 				mode = 1 + g.rng.intn(4)
 			}
 			cc, h, v, z := tuple(tau, mode)
-			cs, zs, lams = append(cs, cc), append(zs, z), append(lams, rnd())
+			cs, zs = append(cs, cc), append(zs, z)
 			hv = append(hv, hexBig(h)+":"+hexBig(v))
 		}
+		lams = distinctLams(n)
 		switch it % 19 { // length mismatches
 		case 17:
 			cs = append(cs, sc())
-			lams = append(lams, rnd())
+			lams = distinctLams(n + 1)
 		case 18:
 			zs = append(zs, sc())
 		}
@@ -639,6 +660,8 @@ func genC11Curve(g *gen, name string, c kzgCurve) {
 		}
 		g.emit("C11 multi %s %s %s %s %s %s", name, tt, showBigList(lams), showBigList(cs), hvs, showBigList(zs))
 	}
+
+	genC11Cancel(g, name, c, tuple, tauTok, distinctLams)
 
 	// --- serialisation round trips
 	for _, size := range []int{2, 3, N} {
